@@ -69,3 +69,25 @@ CONTRACTS[F + 'SupDSG.initialize_choices'] = dict(
     ensures={},
     modifies=[],
 )
+
+CLASSES['SrcDSG'].update({'final': 'Bool', 'feasible': 'Bool'})
+CLASSES['SupDSGX'].update({'choice_mappings': 'List[Tuple[Ref,Ref[SupChoiceMappingX]]]', 'graph': 'Ref[NxGraph]', 'final': 'Bool'})
+CLASSES['SupChoiceMappingX'] = {}
+METHODS = {
+    # abstract mapping: resolves to some supplementary graph or fails (SupResolveError is a RuntimeError)
+    ('SupChoiceMappingX', 'resolve'): dict(params=['self', 'sup_dsg', 'sup_choice_node', 'src_dsg'], types={},
+                                           returns='Ref[SupDSGX]', modifies=[], raises={'resolve-error': ('RuntimeError', 'nondet()')}),
+}
+
+CONTRACTS[F + 'SupDSG.resolve'] = dict(
+    properties=['C20'],
+    types={'self': 'Ref[SupDSGX]', 'src_dsg': 'Ref[SrcDSG]'},
+    returns='Ref[SupDSGX]',
+    locals={'sup_dsg': 'Ref[SupDSGX]'},
+    loops={'for choice_node, choice_mapping in self.choice_mappings': dict(index='k', invariant={})},
+    may_raise=['RuntimeError'],
+    must_raise={'non-final-or-infeasible-source-rejected': ('RuntimeError', 'not src_dsg.final or not src_dsg.feasible')},
+    ensures={'result-final': ('property', 'result.final')},
+    modifies=[],
+    unchanged_on_raise=False,
+)
